@@ -27,8 +27,10 @@ EDGE_ONLY_FILTERS = ("none", "accept", "reject", "tagged_edge", "not_directed")
 
 def floors(ctx):
     if ctx.tier == "quick":
-        return {"rows_single_link": 500, "evaluations": 5000, "corollary_pairs": 500, "equal_but_distinct_end_cases": 500}
-    return {"rows_single_link": 500, "evaluations": 50000, "corollary_pairs": 5000, "equal_but_distinct_end_cases": 500}
+        return {"rows_single_link": 500, "evaluations": 5000, "corollary_pairs": 500, "equal_but_distinct_end_cases": 500,
+                "graphs_with_former_links": 20}
+    return {"rows_single_link": 500, "evaluations": 50000, "corollary_pairs": 5000, "equal_but_distinct_end_cases": 500,
+            "graphs_with_former_links": 20}
 
 
 def _pos(link, v):
